@@ -184,7 +184,7 @@ PROPERTIES["C03"]["rule"] += " 20% of the rule queries are evaluated once (k res
 PROPERTIES["C14"]["rule"] += " In 35% of the prefix/suffix runs prefix operations FAIL half-way: the fault seam oworld.FAULT makes the k-th __hash__ call of a user object inside an assertion raise (sometimes the program retries), and constructors that assign a single-valued managed field do not complete; the suffix must still behave as on a fresh graph."
 PROPERTIES["C14"]["technique"] = "deterministic simulation: scheduled reference drops / gc / sweep / clear and operations interrupted by failing user code (injected at the k-th __hash__ call) as faults, differential oracle (suffix alone vs after prefix) in forked processes, ddmin-minimised replay"
 PROPERTIES["C15"]["rule"] += " The ontology also has a transitive property with inverse and super-property (Zone.part_of) and subclasses that declare the super-property field themselves (Officer(Clerk), Patron(Donor)); two or three facts about one field may be delivered by ONE write (container assignment, extend, update, +=, |=)."
-PROPERTIES["C16"]["rule"] += " Operations include assigning a lazily evaluated view of the field itself (generator, filter, reversed, chain) and, as a last op, a write through a shallow copy of the owner that shares the container object (only the relation of the instance written through is judged)."
+PROPERTIES["C16"]["rule"] += " Operations include assigning a lazily evaluated view of the field itself (generator, filter, reversed, chain) and, as a last op, a write through a shallow copy of the owner that shares the container object, or a write to a new instance constructed with the collection that outlived its dead owner (only the relation of the instance written through is judged)."
 PROPERTIES["C17"]["rule"] += " 20% of the base-less classes follow the Role pattern (Role[T] with a required field of type T, a HasRoleTaker edge)."
 PROPERTIES["C20"]["rule"] += " Query conditions: none, comparison, user predicate (cheap / expensive), collection comparison, exists(...) over a second variable, an independent nested sub-query (the/an inside the/an)."
 PROPERTIES["C10"]["rule"] += " One-shot streams in literal position come as generator, iterator object, map object or chain object."
